@@ -107,6 +107,9 @@ func genC15(r *simrt.RNG, tier string, variant int) Plan {
 		}
 	}
 	p.Params["react_ms"] = Pick(r, []int64{0, 1, 500, 60000, 400000})
+	if r.Bool(0.2) {
+		p.Params["sampled"] = 1 // the callers trace their calls with sampled spans
+	}
 	if variant >= 0 {
 		p.Params["react_ms"] = []int64{0, 1, 500, 60000, 400000}[(variant/4)%5]
 	}
@@ -178,6 +181,10 @@ func serverGoroutines() (map[string]int, map[string][]string) {
 }
 
 func runC15(e *Env, p *Plan) {
+	if p.Param("sampled", 0) > 0 {
+		defer Sampled()()
+		e.Probe("calls-carry-sampled-span-contexts")
+	}
 	w, err := e.Build(p)
 	if err != nil {
 		e.Violate("setup", "building the world failed on a healthy network: %v", err)
